@@ -255,6 +255,9 @@ type Req struct {
 	Dry      bool   `json:"dry"`
 	Fault    int    `json:"fault"`
 	Els      []Op   `json:"els"`
+	// CT: content type of a bulk: "" = application/json (one JSON array), "json-stream" = one JSON object per
+	// line (application/vnd.formance.ledger.api.v2.bulk+json-stream). The semantics do not depend on it.
+	CT string `json:"ct"`
 }
 
 func (r *Req) Norm() {
